@@ -10,8 +10,14 @@ def scenario(rng, i):
     fm = rng.sample(gen.FORMATS, rng.choice([1, 2, 3, 6]))
     st = {"op": "create", "fmts": fm}
     if i % 3 == 0:
-        st["i"] = rng.sample(PATTERNS, rng.choice([1, 2]))
-    steps = [st, {"op": "verifydh", "co": True}]
+        st["i"] = rng.sample(PATTERNS + gen.path_patterns(tree, rng, k=3), rng.choice([1, 2]))
+    steps = []
+    if i % 4 == 1:
+        # nested histories sealed first (own format sets): the parent records the nested roots as directory entries
+        dirs = gen.all_dirs(tree)
+        for d in rng.sample(dirs, min(len(dirs), rng.choice([1, 2]))):
+            steps.append({"op": "create", "root": d, "fmts": rng.sample(gen.FORMATS, rng.choice([1, 2]))})
+    steps += [st, {"op": "verifydh", "co": True}]
     cur = tree
     from .. import world
     for _ in range(rng.choice([0, 1, 2])):
